@@ -4,8 +4,8 @@ Model: lean/MiciVerif/Model/Integrators.lean, theorems lean/MiciVerif/Props/C02.
 Direct oracles (this file, on the real code):
   * reversal: n steps, negate dir on a copy, n steps -> start (pos, mom) up to tolerance, or an
     mici.errors.IntegratorError (counted); any other exception or a silent non-reversal is a violation;
-  * deliberately hard cases (large steps, strongly curved manifolds / metrics) where the reversibility
-    checks of the implementation really fire;
+  * deliberately hard cases (large steps, strongly curved manifolds / metrics) and cases with loose solver
+    tolerances, where the reversibility checks of the implementation really fire (rates in the evidence);
   * benign cases must not fail (an integrator whose check always raises is useless);
   * Integrator.step never modifies its input (bitwise snapshot of variables and cache, also when step
     raises), returns a new non-aliased state, and the input's cached values stay correct;
@@ -47,7 +47,8 @@ def _checked_step(sysw, integ, state, fails, cls, deep):
     before = ic.snapshot(state)
     out, exc = None, None
     try:
-        out = integ.step(state)
+        with np.errstate(all="ignore"):
+            out = integ.step(state)
     except Exception as e:  # noqa: BLE001
         exc = e
     after = ic.snapshot(state)
@@ -147,27 +148,39 @@ def _run(case):
     return fails, info
 
 
-def _make_case(rng, ikind, skind, n, *, hard=False, populate=None):
+def _make_case(rng, ikind, skind, n, *, tier="easy", populate=None):
+    """tier: 'easy' (small stable steps), 'hard' (large steps, strongly curved), 'loose' (moderate steps with
+    deliberately loose solver tolerances but the default reverse_check_tol, so that the implementation's
+    reversibility checks are decisive)."""
+    hard = tier == "hard"
     kw = {}
     if hard and skind in ic.CONSTRAINED:
         kw["constraint_kind"] = str(rng.choice(["sphere", "ellipsoid", "quartic", "graph", "two"]))
+        kw["r2_range"] = (0.5, 1.0)
     sspec = ic.random_system_spec(rng, skind, **kw)
     if hard:
-        if "constr" in sspec and "r2" in sspec["constr"]:
-            sspec["constr"]["r2"] = ic.enc(ic.dy(rng, (), 4, 0.5, 1.0))
         if "riem" in sspec and "alpha" in sspec["riem"]:
             sspec["riem"]["alpha"] = ic.enc(ic.dy(rng, (), 4, 0.5, 2.0))
     sysw = ic.build_system(sspec)
     if hard:
-        eps = float(rng.choice([0.25, 0.375, 0.5, 0.75, 1.0, 1.5]))
+        eps = float(rng.choice([0.5, 0.75, 1.0, 1.5, 2.0, 3.0]))
         stspec = ic.random_state_spec(rng, sysw, mom_scale=2.0)
+    elif tier == "loose":
+        eps = ic.dyadic_step(sysw, float(rng.choice([0.25, 0.5, 1.0])))
+        stspec = ic.random_state_spec(rng, sysw)
     else:
         eps = ic.dyadic_step(sysw, float(rng.choice([0.0625, 0.125, 0.25])))
         stspec = ic.random_state_spec(rng, sysw)
     ispec = ic.random_integrator_spec(rng, ikind, eps)
+    if tier == "loose":
+        tol = float(rng.choice([1e-3, 1e-4, 1e-5]))
+        if ikind == "constrained_leapfrog":
+            ispec["proj_kwargs"] = {"constraint_tol": ic.enc(tol), "position_tol": ic.enc(10 * tol)}
+        else:
+            ispec["solver_kwargs"] = {"convergence_tol": ic.enc(tol)}
     return {
         "check": "reversal", "system": sspec, "integrator": ispec, "state": stspec, "n": int(n),
-        "populate": int(rng.integers(0, 3)) if populate is None else populate, "hard": bool(hard),
+        "populate": int(rng.integers(0, 3)) if populate is None else populate, "tier": tier,
     }
 
 
@@ -186,17 +199,22 @@ def direct_oracles(ctx):
             reps = ctx.n(60, 600)
         for skind in sk:
             for r in range(reps):
-                plan.append((ikind, skind, (1, 2, 5)[r % 3], False))
+                plan.append((ikind, skind, (1, 2, 5)[r % 3], "easy"))
     for ikind in ic.IMPLICIT_KINDS:
         for skind in ic.RIEMANNIAN:
-            for r in range(ctx.n(12, 100)):
-                plan.append((ikind, skind, (1, 2)[r % 2], True))
+            for r in range(ctx.n(30, 300)):
+                plan.append((ikind, skind, (1, 2)[r % 2], "hard"))
+            for r in range(ctx.n(20, 200)):
+                plan.append((ikind, skind, (1, 2)[r % 2], "loose"))
     for skind in ic.CONSTRAINED:
-        for r in range(ctx.n(120, 1200)):
-            plan.append(("constrained_leapfrog", skind, (1, 2, 5)[r % 3], True))
-    for ikind, skind, n, hard in plan:
+        for r in range(ctx.n(500, 5000)):
+            plan.append(("constrained_leapfrog", skind, (1, 1, 2)[r % 3], "hard"))
+        for r in range(ctx.n(100, 1000)):
+            plan.append(("constrained_leapfrog", skind, (1, 2)[r % 2], "loose"))
+    for ikind, skind, n, tier in plan:
+        hard = tier != "easy"
         try:
-            case = _make_case(rng, ikind, skind, n, hard=hard)
+            case = _make_case(rng, ikind, skind, n, tier=tier)
         except common.MachineryError:
             raise
         except Exception as e:  # noqa: BLE001
@@ -205,8 +223,8 @@ def direct_oracles(ctx):
         fails, info = _run(case)
         status = info.get("status", "?")
         cls = _cls(case)
-        tag = "hard" if hard else "easy"
-        ctx.case({"i": ikind, "s": skind, "n": n, "hard": hard, "id": common.stable_hash(case)},
+        tag = tier
+        ctx.case({"i": ikind, "s": skind, "n": n, "tier": tier, "id": common.stable_hash(case)},
                  nontrivial=status == "ok" and info.get("err", 0.0) >= 0.0 and (n > 1 or hard))
         ctx.count(f"{tag}:{ikind}:{skind}:{status}")
         if status.startswith("error:"):
@@ -230,6 +248,8 @@ def direct_oracles(ctx):
             ctx.count("coefficients_checked")
             for sig, what in cf:
                 ctx.violation(sig, what, {**case, "check": "coefficients"})
+    for k, v in ic.STATS.items():
+        ctx.count("lib:" + k, v)
     for cls, b in benign.items():
         k = len(b["raised"])
         ctx.count(f"benign_failures:{cls}", k)
@@ -249,8 +269,11 @@ def run(ctx: common.Ctx):
         "with 1-3 inner steps and Newton / quasi-Newton / line-search projection) x compatible system class "
         "(Euclidean, Gaussian-split, 5 Riemannian, dense constrained with both density conventions, Gaussian "
         "constrained; 10 metric types, 6 constraint families, 4 polynomial target families, dims 1-5) x dyadic "
-        "state x dir in {+1,-1} x n in {1,2,5}; easy tier: step = 2^k <= c/frequency scale; hard tier: steps "
-        "0.25-1.5 on strongly curved problems; non-trivial = completed reversal with n > 1 or hard"
+        "state x dir in {+1,-1} x n in {1,2,5}; easy tier: step = 2^k <= c/frequency scale; hard tier: steps 0.5-3 "
+        "with doubled momenta on strongly curved problems (small spheres, quartic / cubic-graph manifolds, metric "
+        "curvature 0.5-2); loose tier: moderate steps with solver tolerances 1e-3..1e-5 but the default "
+        "reverse_check_tol, which makes the implementation's reversibility checks decisive; non-trivial = completed "
+        "reversal with n > 1 or in the hard / loose tier"
     )
     ctx.assumptions += [
         "tolerances: explicit 1e-9 x scale, iterative 1e-6 x scale (50 x default reverse_check_tol); scale = max(1, |z| along the trajectory)",
@@ -267,7 +290,7 @@ def replay(ctx, obj):  # noqa: ARG001
     chk = obj.get("check")
     if chk == "build":
         return True
-    case = {k: obj[k] for k in ("check", "system", "integrator", "state", "n", "populate", "hard") if k in obj}
+    case = {k: obj[k] for k in ("check", "system", "integrator", "state", "n", "populate", "tier") if k in obj}
     if chk == "coefficients":
         try:
             return bool(check_coefficients(case))
